@@ -93,17 +93,17 @@ NS = {
 SKEL_QUICK = OrderedDict([
     ("none", "None"), ("bool", "b0"), ("int", "i0"), ("float", "f0"), ("str", "s0"),
     ("list0", "[]"), ("list_i", "[i0]"), ("list_s", "[s0]"), ("list_ii", "[i0, i1]"), ("list_if", "[i0, f0]"), ("list_ss", "[s0, s1]"),
-    ("tuple_i", "(i0,)"), ("nan", "NAN"), ("inf", "INF"), ("negzero", "NZ"), ("dict0", "{}"), ("dict_ki", "{K(k0): i0}"), ("dict_ii", "{KI(k0): i1}"), ("path", "P(k0)"), ("bigint_p", "g0"), ("bigint_n", "-g0"),
+    ("tuple_i", "(i0,)"), ("nest_i", "[[i0]]"), ("list_li", "[[i0], i1]"), ("list_il", "[i0, [i1]]"), ("dc1_i", "DC1(i0)"), ("dcx_i", "DCX(i0)"), ("date", "D0"), ("nan", "NAN"), ("inf", "INF"), ("negzero", "NZ"), ("dict0", "{}"), ("dict_ki", "{K(k0): i0}"), ("dict_ii", "{KI(k0): i1}"), ("path", "P(k0)"), ("bigint_p", "g0"), ("bigint_n", "-g0"),
 ])
 SKEL_MORE = OrderedDict([
     ("list_n", "[None]"), ("list_b", "[b0]"), ("list_f", "[f0]"), ("list_is", "[i0, s0]"), ("list_si", "[s0, i0]"),
-    ("nest_i", "[[i0]]"), ("nest_s", "[[s0]]"), ("nest_e", "[[]]"), ("nest_ee", "[[], []]"), ("list_li", "[[i0], i1]"),
+    ("nest_s", "[[s0]]"), ("nest_e", "[[]]"), ("nest_ee", "[[], []]"),
     ("tuple_s", "(s0,)"), ("tuple_ss", "(s0, s1)"), ("tuple0", "()"),
     ("dict_ks", "{K(k0): s0}"), ("dict_is", "{KI(k0): s0}"), ("dict_ni", "{None: i0}"), ("dict_kn", "{K(k0): None}"), ("dict_kl", "{K(k0): [i0]}"),
     ("dict2", "OD([(K(k0), i0), (K(k1), i1)])"), ("odict_ki", "OD([(K(k0), i0)])"), ("odict0", "OD()"),
     ("bigint_p6", "g0 * 256"), ("bigint_n6", "-g0 * 256 - 1"), ("list_g", "[g0]"), ("list_gi", "[-g0, i0]"),
-    ("dc1_i", "DC1(i0)"), ("dc1_s", "DC1(s0)"), ("dc2", "DC2(i0, s0)"), ("dcx_i", "DCX(i0)"), ("dict_a", "{'a': i0}"),
-    ("date", "D0"), ("time", "T0"), ("datetime", "DT0"), ("timedelta", "TD0"),
+    ("dc1_s", "DC1(s0)"), ("dc2", "DC2(i0, s0)"), ("dict_a", "{'a': i0}"),
+    ("time", "T0"), ("datetime", "DT0"), ("timedelta", "TD0"),
     ("ninf", "NINF"), ("zero", "Z"), ("tiny", "TINY"),
 ])
 TOTAL_ONLY = OrderedDict([("unsupported", "U()"), ("list_u", "[U()]"), ("bytes", "b'ab'"), ("set", "{1, 2}"), ("str_any", "s0"), ("list_sany", "[s0]")])
